@@ -1,3 +1,3 @@
 Require Import ExtrOcamlBasic.
 Require Import SGV.Smpi.Blocks.
-Extraction "c35_model.ml" run_c35_shift run_c35_shift_orig run_c35_merge run_c35_copied.
+Extraction "c35_model.ml" run_c35_shift run_c35_shift_orig run_c35_merge run_c35_copied run_c35_e2e.
